@@ -194,15 +194,25 @@ class Prop(object):
     def search(self, ctx):
         rng = ctx.rng("search")
         words = list(ref.words(["a", "b", "c"], 4))
-        for size in range(1, 5):
+        words3 = list(ref.words(["a", "b", "c"], 3))
+        for size in range(1, 6):
             for ast in ref.all_asts(size):
                 for dollar in (False, True):
                     full = ("C", ast, ("S", "$")) if dollar else ast
                     pat = ref.render2(ast) + (" $" if dollar else "")
-                    for w in words:
+                    for w in (words if size <= 4 else words3):
                         why = violates(full, pat, w, ["a", "b", "c"])
                         if why:
                             return {"pattern": pat, "word": w, "why": why}
+        for _ in range(ctx.n(3000, 30000)):
+            ast = ref.gen_ast(rng, rng.randrange(3, 9))
+            dollar = rng.random() < 0.3
+            full = ("C", ast, ("S", "$")) if dollar else ast
+            pat = ref.render2(ast) + (" $" if dollar else "")
+            w = [rng.choice("abc") for _ in range(rng.randrange(0, 7))]
+            why = violates(full, pat, w, ["a", "b", "c"])
+            if why:
+                return {"pattern": pat, "word": w, "why": why}
         names = parse_code_names()
         for level, pat in level_patterns():
             ast = ref.parse(pat)
